@@ -3,12 +3,16 @@ package main
 import (
 	"bytes"
 	"context"
+	"errors"
 	"fmt"
+	"net/http"
 	"net/http/httptest"
 	"os"
 	"path/filepath"
 	"sort"
 	"strings"
+	"sync/atomic"
+	"time"
 
 	zed "github.com/brimdata/super"
 	"github.com/brimdata/super/api"
@@ -16,6 +20,8 @@ import (
 	lakeapi "github.com/brimdata/super/lake/api"
 	"github.com/brimdata/super/pkg/storage"
 	"github.com/brimdata/super/service"
+	"github.com/brimdata/super/zio"
+	"github.com/brimdata/super/zio/zsonio"
 	"github.com/brimdata/super/zio/zngio"
 	"github.com/brimdata/super/zson"
 	"github.com/segmentio/ksuid"
@@ -46,6 +52,7 @@ type side struct {
 type pair struct {
 	L, R *side
 	base string
+	gate *inflight
 }
 
 func newPair(ctx context.Context, base string) (*pair, error) {
@@ -61,14 +68,49 @@ func newPair(ctx context.Context, base string) (*pair, error) {
 	if err != nil {
 		return nil, fmt.Errorf("service.NewCore: %w", err)
 	}
-	srv := httptest.NewServer(svc)
+	gate := &inflight{h: svc}
+	srv := httptest.NewServer(gate)
 	conn := client.NewConnectionTo(srv.URL)
 	mk := func(name, dir string, a lakeapi.Interface) *side {
 		return &side{name: name, dir: dir, api: a, objs: map[int]ksuid.KSUID{}, commits: map[int]ksuid.KSUID{}, known: map[string]bool{}}
 	}
 	p := &pair{L: mk("L", dirL, l), R: mk("R", dirR, lakeapi.NewRemoteLake(conn)), base: base}
 	p.R.conn, p.R.url, p.R.srv = conn, srv.URL, srv
+	p.gate = gate
 	return p, nil
+}
+
+// inflight counts the requests the served lake is still working on: a client
+// whose request was aborted returns before the handler does.
+type inflight struct {
+	h       http.Handler
+	started int64
+	done    int64
+}
+
+func (g *inflight) ServeHTTP(w http.ResponseWriter, r *http.Request) {
+	atomic.AddInt64(&g.started, 1)
+	defer atomic.AddInt64(&g.done, 1)
+	g.h.ServeHTTP(w, r)
+}
+
+// quiesce waits until no handler is running and none has started for a while.
+func (g *inflight) quiesce() {
+	deadline := time.Now().Add(20 * time.Second)
+	calm := 0
+	last := int64(-1)
+	for time.Now().Before(deadline) {
+		st, dn := atomic.LoadInt64(&g.started), atomic.LoadInt64(&g.done)
+		if st == dn && st == last {
+			if calm++; calm >= 25 {
+				return
+			}
+		} else {
+			calm = 0
+		}
+		last = st
+		time.Sleep(2 * time.Millisecond)
+	}
 }
 
 func (p *pair) close() {
@@ -206,6 +248,42 @@ func (s *side) ids(objs []int) ([]ksuid.KSUID, bool) {
 type loadPlan struct {
 	Fmt  loadFmt
 	Body []byte
+	// loadfail: the input yields Good values and then fails the way Fail says
+	Fail string // "syntax" | "ioerr"
+	Good int
+	Text []string // ZSON text of the batch's values
+}
+
+// failing returns a fresh reader over the batch that fails after Good values.
+func (lp *loadPlan) failing(zctx *zed.Context) zio.Reader {
+	switch lp.Fail {
+	case "syntax":
+		// a malformed record in the middle of a ZSON file
+		var sb strings.Builder
+		for i, t := range lp.Text {
+			if i == lp.Good {
+				sb.WriteString("{k:1,,u:99}\n")
+			}
+			sb.WriteString(t + "\n")
+		}
+		return zsonio.NewReader(zctx, strings.NewReader(sb.String()))
+	default:
+		return &ioErrReader{r: zsonio.NewReader(zctx, strings.NewReader(strings.Join(lp.Text, "\n"))), left: lp.Good}
+	}
+}
+
+// ioErrReader delivers left values and then reports an I/O error of the source.
+type ioErrReader struct {
+	r    zio.Reader
+	left int
+}
+
+func (e *ioErrReader) Read() (*zed.Value, error) {
+	if e.left == 0 {
+		return nil, errors.New("read /dev/source: input/output error")
+	}
+	e.left--
+	return e.r.Read()
 }
 
 // apply executes step st on side s.  skipped=true: the operation refers to an
@@ -213,6 +291,11 @@ type loadPlan struct {
 func (s *side) apply(ctx context.Context, m *lakeh.AbsModel, st *lakeh.Step, lp *loadPlan) (commit ksuid.KSUID, err error, skipped bool) {
 	switch st.Op {
 	case "load":
+		if lp.Fmt.Handle {
+			zctx := zed.NewContext()
+			commit, err = s.api.Load(ctx, zctx, s.pool, st.B, zsonio.NewReader(zctx, bytes.NewReader(lp.Body)), commitMsg())
+			return
+		}
 		if s.conn != nil {
 			var res api.CommitResponse
 			res, err = s.conn.Load(ctx, s.pool, st.B, lp.Fmt.CT, bytes.NewReader(lp.Body), commitMsg())
@@ -226,6 +309,10 @@ func (s *side) apply(ctx context.Context, m *lakeh.AbsModel, st *lakeh.Step, lp 
 		}
 		defer zr.Close()
 		commit, err = s.api.Load(ctx, zctx, s.pool, st.B, zr, commitMsg())
+	case "loadfail":
+		// the input fails after st.Obj good values; both lakes through their handle
+		zctx := zed.NewContext()
+		commit, err = s.api.Load(ctx, zctx, s.pool, st.B, lp.failing(zctx), commitMsg())
 	case "delete":
 		ids, ok := s.ids([]int{st.Obj})
 		if !ok {
@@ -385,6 +472,8 @@ func (rp *replayer) replay(h lakeh.History, hidx int, scratch string) error {
 		}
 		s.pool = id
 	}
+	// values read from the input of a load before it failed: they must never show up
+	suspect := map[int]bool{}
 	for i := range h {
 		st := &h[i]
 		upto := i + 1
@@ -397,8 +486,23 @@ func (rp *replayer) replay(h lakeh.History, hidx int, scratch string) error {
 			what = "load[" + lp.Fmt.Name + "]"
 			c.Add("load_format:"+lp.Fmt.Name, 1)
 		}
+		if st.Op == "loadfail" {
+			lp = &loadPlan{Fail: []string{"syntax", "ioerr"}[(hidx+i+int(c.Seed%2))%2], Good: st.Obj}
+			for _, v := range m.Batches[st.Batch-1] {
+				lp.Text = append(lp.Text, m.ValueText(v))
+			}
+			what = fmt.Sprintf("load through the handle of an input that fails (%s) after %d good values", lp.Fail, lp.Good)
+			c.Add("load_input_failure:"+lp.Fail, 1)
+		}
 		cL, eL, skL := p.L.apply(ctx, m, st, lp)
 		cR, eR, skR := p.R.apply(ctx, m, st, lp)
+		if st.Op == "loadfail" {
+			// the aborted request may still be running on the server
+			p.gate.quiesce()
+			for _, v := range m.Batches[st.Batch-1][:st.Obj] {
+				suspect[v] = true
+			}
+		}
 		if skL || skR {
 			return nil
 		}
@@ -433,7 +537,7 @@ func (rp *replayer) replay(h lakeh.History, hidx int, scratch string) error {
 		// observable state after the step
 		last := i == len(h)-1
 		for bi, b := range sortedBranches(st.Tips) {
-			ok, err := rp.compareBranch(p, h, upto, hidx, st, b, what, last, bi)
+			ok, err := rp.compareBranch(p, h, upto, hidx, st, b, what, last, bi, suspect)
 			if err != nil {
 				return err
 			}
@@ -452,7 +556,7 @@ func (rp *replayer) replay(h lakeh.History, hidx int, scratch string) error {
 
 // compareBranch reads branch b through both handles and compares (a) each
 // with the model, (b) the service with direct access.
-func (rp *replayer) compareBranch(p *pair, h lakeh.History, upto, hidx int, st *lakeh.Step, b, what string, last bool, bi int) (bool, error) {
+func (rp *replayer) compareBranch(p *pair, h lakeh.History, upto, hidx int, st *lakeh.Step, b, what string, last bool, bi int, suspect map[int]bool) (bool, error) {
 	c, ctx := rp.c, rp.ctx
 	src := fmt.Sprintf("from %s@%s", poolName, b)
 	qL := runQuery(ctx, p.L.api, src)
@@ -485,6 +589,10 @@ func (rp *replayer) compareBranch(p *pair, h lakeh.History, upto, hidx int, st *
 			rp.drift("direct access: branch %q holds %v, the model predicts %v (claimed by C14/C15): %s", b, gL, want, h[:upto])
 		}
 		if !equalInts(gR, want) && equalInts(gL, want) {
+			if extra := partialCommit(gR, gL, suspect); extra != nil {
+				rp.violate("partial-commit:loadfail", fmt.Sprintf("the served lake's branch %q holds values %v, direct access and the model have %v: the extra values %v are the good prefix of an input that FAILED while being loaded through the remote handle (the caller got the error, the service committed the prefix anyway)", b, gR, want, extra), h, upto, hidx)
+				return false, nil
+			}
 			rp.violate("state:contents:"+st.Op, fmt.Sprintf("after %s the served lake's branch %q holds values %v; direct access and the model have %v", what, b, gR, want), h, upto, hidx)
 			return false, nil
 		}
@@ -492,6 +600,10 @@ func (rp *replayer) compareBranch(p *pair, h lakeh.History, upto, hidx int, st *
 	// (b) the service against direct access: same values, same order up to equal pool keys
 	class := keyClasses(qL.Z)
 	if d := sameModuloKeys(qL.Vals, qR.Vals, class); d != "" {
+		if extra := partialCommit(uidsOf(qR.Vals), uidsOf(qL.Vals), suspect); extra != nil {
+			rp.violate("partial-commit:loadfail", fmt.Sprintf("`%s` returns %v through the service but %v under direct access: the extra values %v are the good prefix of an input that FAILED while being loaded through the remote handle (the caller got the error, the service committed the prefix anyway)", src, qR.Vals, qL.Vals, extra), h, upto, hidx)
+			return false, nil
+		}
 		rp.violate("state:"+d+":"+st.Op, fmt.Sprintf("after %s, `%s` returns %v through the service but %v under direct access (%s differ)", what, src, qR.Vals, qL.Vals, d), h, upto, hidx)
 		return false, nil
 	}
@@ -507,6 +619,10 @@ func (rp *replayer) compareBranch(p *pair, h lakeh.History, upto, hidx int, st *
 	} {
 		mL, mR := runQuery(ctx, p.L.api, meta), runQuery(ctx, p.R.api, meta)
 		if cls(mL.Err) != cls(mR.Err) || (mL.Err == nil && !equalStrings(mL.Vals, mR.Vals)) {
+			if len(suspect) > 0 && mL.Err == nil && mR.Err == nil {
+				rp.violate("partial-commit:loadfail", fmt.Sprintf("`%s` gives %v through the service but %v under direct access after a load through the remote handle whose input failed after good values %v (the caller got the error, the service committed a prefix anyway)", meta, mR.Vals, mL.Vals, keysOf(suspect)), h, upto, hidx)
+				return false, nil
+			}
 			rp.violate("state:meta:"+st.Op, fmt.Sprintf("after %s, `%s` gives %v (err %v) through the service but %v (err %v) under direct access", what, meta, mR.Vals, mR.Err, mL.Vals, mL.Err), h, upto, hidx)
 			return false, nil
 		}
@@ -544,6 +660,38 @@ func (rp *replayer) compareBranch(p *pair, h lakeh.History, upto, hidx int, st *
 		}
 	}
 	return true, nil
+}
+
+// partialCommit: got = want plus extra values, all of them good-prefix values
+// of failed loads.  It returns the extra values, or nil.
+func partialCommit(got, want []int, suspect map[int]bool) []int {
+	cnt := map[int]int{}
+	for _, v := range got {
+		cnt[v]++
+	}
+	for _, v := range want {
+		cnt[v]--
+	}
+	var extra []int
+	for v, n := range cnt {
+		if n < 0 || (n > 0 && !suspect[v]) {
+			return nil
+		}
+		for ; n > 0; n-- {
+			extra = append(extra, v)
+		}
+	}
+	sort.Ints(extra)
+	return extra
+}
+
+func keysOf(m map[int]bool) []int {
+	var out []int
+	for k := range m {
+		out = append(out, k)
+	}
+	sort.Ints(out)
+	return out
 }
 
 func equalStrings(a, b []string) bool {
